@@ -141,6 +141,14 @@ def _pairing(col, rule="C10.R2"):
                 "the starting point of the call is logged (and its penalty evaluated) after the temporary enable/disable arguments "
                 "were applied: a target disabled for this call does not contribute to the penalty the accepted points are compared with",
                 f"applied after the starting point was logged: {[(r[0], r[1]) for r in late]}")
+    # the undo comes last: a reload (take_best) after it would put back the flags logged under the temporary masks
+    reloads = [ev.nid for ev, m in sx.calls_some(("call", ("attr", S.SELF, "reload"), S.ANY, S.ANY))]
+    if reloads and post:
+        after = [r for r in reloads if any(cfg.path_avoiding(p_[4], r, []) for p_ in post)]
+        col.add(rule, "Optimize.step#temporary-state-undone-after-take-best", not after, sx.loc(after[0]) if after else sx.loc(post[0][4]),
+                "the temporary enable/disable arguments are undone after the take_best reload, never before it: reload() restores the "
+                "active flags stored with the chosen row, which were recorded under the temporary masks",
+                f"reload reachable after the undo at {[sx.loc(r) for r in after]}")
     if len(pre) < 6:
         raise AnalysisError(f"Optimize.step: only {len(pre)} temporary enable/disable applications found before the steps (expected 6)")
 
@@ -275,6 +283,26 @@ def _limits(col, rule="C10.R4"):
     dflt = any(s_ == ("glob", "LIMITS_DEFAULT") for r in rets for s_ in S.subterms(r.value)) and \
         any(S.contains(r.value, lambda t: t == ("attr", V, "limits")) for r in rets)
     col.add(rule, "MeritFunctionForMatch._get_x_limits#default-limits", dflt, sx.loc(sx.fn), "a knob without limits gets the wide default limits", "")
+    # a caller overwrites the returned array in place (the rescale_x view writes its own interval into it): the array must
+    # be allocated afresh on every call and not be kept by the merit function
+    vsx = sctx(repo, "MeritFuctionView", "get_x_limits", keep=OPT_KEEP | {"_check_for_scalability"})
+    got = S.mcall(S.sattr("merit_function"), "_get_x_limits")
+    mutated = [e for e in vsx.of_kind("store") if any(t[:1] == ("sub",) and t[1] == got for t in S.alts(e.target))]
+    if mutated:
+        kept = {e.value for e in sx.of_kind("store") if S.is_attr(e.target, S.SELF) and e.value is not None}
+        stale = []
+        for r in rets:
+            for a in S.instances(r.value, 16):
+                if S.is_attr(a, S.SELF) or any(S.is_attr(x, S.SELF) and x[2].startswith("_x_lim") for x in [a]):
+                    stale.append(f"returns the stored {S.show(a)}")
+                elif a in kept:
+                    stale.append(f"returns an array it also keeps ({S.show(a)[:50]})")
+                elif not (S.is_call_of(a) and a[1][:1] == ("attr",) and a[1][1] == NP):
+                    stale.append(f"returns {S.show(a)[:50]}")
+        col.add(rule, "MeritFunctionForMatch._get_x_limits#returns-a-fresh-array", not stale, sx.loc(sx.fn),
+                "the limits array handed out is newly built on every call and not retained: MeritFuctionView.get_x_limits writes the "
+                "rescale_x interval into the array it receives, which must not be the array the solver checks its steps against",
+                "; ".join(dict.fromkeys(stale)))
     # ---- JacobianSolver.step
     sx = octx(repo, "JacobianSolver", "step")
     cfg = sx.cfg
